@@ -5,7 +5,7 @@
    without '\n'; the reader follows ANY schedule [sch] of read sizes. *)
 From Coq Require Import ZArith List Bool.
 From RM Require Import Base.Word C08.Model C11.Model C09.Model C09.Grammar C09.Driver C09.Proofs C09.ProofsBytes C09.ProofsFinish C09.ProofsFinal C09.ProofsTrace C09.Circular C09.ProofsCircular C09.ProofsLines C09.ProofsTable.
-From RM Require C09.Pins C09.PinsMem C08.Proofs C09.PinsNum Gen.C09Numeric C09.ProofsText C09.ProofsRecord C09.ProofsRecord2 C09.ProofsRecord3 C09.ProofsRecord4.
+From RM Require C09.Pins C09.PinsMem C08.Proofs C09.PinsNum Gen.C09Numeric C09.ProofsText C09.ProofsRecord C09.ProofsRecord2 C09.ProofsRecord3 C09.ProofsRecord4 C09.ProofsRecord5 C09.ProofsRecord6.
 Import ListNotations.
 Open Scope Z_scope.
 
@@ -715,3 +715,37 @@ Example c09_nonvacuous_module_record :
     [65; 66; 67; 49] [97; 46; 112; 100; 98] /\
   p_module (to_rle [77; 79; 68; 85; 76; 69; 32; 76; 105; 110; 117; 120; 9; 120; 56; 54; 32; 65; 66; 67; 49; 32; 97; 46; 112; 100; 98; 13]) = PFail.
 Proof. split; [exact ProofsRecord4.module_line_example|vm_compute; reflexivity]. Qed.
+
+(* STACK WIN records and INLINE sub-lines as declarative grammars over BYTES, both directions.  With the five theorems above,
+   every record kind and every sub-line kind of the format has a declarative counterpart proved equal to the byte-level
+   recogniser that the correspondence run compares with parser.rs. *)
+Theorem c09_win_inline_record_grammar :
+  forall s : rle,
+    (forall it, p_stack_win s = POk it ->
+        exists ty a sz pro epi par sav loc mx hp n rest,
+          it = IWin (win_of_fields ty a sz pro epi par sav loc mx hp n) /\
+          ProofsRecord5.win_line (PinsNum.expand s) ty a sz pro epi par sav loc mx hp rest /\ PinsNum.expand n = rest) /\
+    (forall ty a sz pro epi par sav loc mx hp rest,
+        ProofsRecord5.win_line (PinsNum.expand s) ty a sz pro epi par sav loc mx hp rest ->
+        exists n, p_stack_win s = POk (IWin (win_of_fields ty a sz pro epi par sav loc mx hp n)) /\ PinsNum.expand n = rest) /\
+    (forall x, sub_inline s = Some x ->
+        exists depth cline cfile origin rs, x = ProofsRecord6.inlinees depth cline cfile origin rs /\
+                                            ProofsRecord6.inline_line (PinsNum.expand s) depth cline cfile origin rs) /\
+    (forall depth cline cfile origin rs, ProofsRecord6.inline_line (PinsNum.expand s) depth cline cfile origin rs ->
+        sub_inline s = Some (ProofsRecord6.inlinees depth cline cfile origin rs)).
+Proof.
+  intros s. split; [apply ProofsRecord5.win_sound|]. split; [intros; eapply ProofsRecord5.win_complete; eassumption|].
+  split; [apply ProofsRecord6.inline_sound|apply ProofsRecord6.inline_complete].
+Qed.
+Print Assumptions c09_win_inline_record_grammar.
+
+(* non-vacuity: an INLINE line with two ranges has the shape; a trailing space after the last range (the separator that
+   separated_list1 gives back) or a ninth digit in a size makes the line invalid *)
+Example c09_nonvacuous_inline_record :
+  ProofsRecord6.inline_line
+    (PinsNum.expand (to_rle [73; 78; 76; 73; 78; 69; 32; 48; 32; 51; 32; 49; 32; 50; 32; 49; 48; 48; 48; 32; 49; 48; 32; 50; 48; 48; 48; 32; 52; 13]))
+    0 3 1 2 [(4096, 16); (8192, 4)] /\
+  (sub_inline (to_rle [73; 78; 76; 73; 78; 69; 32; 48; 32; 51; 32; 49; 32; 50; 32; 49; 48; 48; 48; 32; 49; 48; 32]),
+   sub_inline (to_rle [73; 78; 76; 73; 78; 69; 32; 48; 32; 51; 32; 49; 32; 50; 32; 49; 48; 48; 48; 32; 49; 50; 51; 52; 53; 54; 55; 56; 57]))
+  = (None, None).
+Proof. split; [exact ProofsRecord6.inline_line_example|vm_compute; reflexivity]. Qed.
